@@ -2,6 +2,9 @@ use crate::engine::PropInfo;
 
 pub mod c01;
 pub mod c02;
+pub mod c03;
+pub mod c07;
+pub mod c08;
 pub mod c09;
 pub mod c10;
 pub mod c11;
@@ -10,7 +13,7 @@ pub mod c13;
 pub mod c20;
 
 pub fn registry() -> Vec<&'static PropInfo> {
-    vec![&c01::INFO, &c02::INFO, &c09::INFO, &c10::INFO, &c11::INFO, &c12::INFO, &c13::INFO, &c20::INFO]
+    vec![&c01::INFO, &c02::INFO, &c03::INFO, &c07::INFO, &c08::INFO, &c09::INFO, &c10::INFO, &c11::INFO, &c12::INFO, &c13::INFO, &c20::INFO]
 }
 
 pub fn find(id: &str) -> Option<&'static PropInfo> {
